@@ -23,7 +23,8 @@ RULE = ("per plugin: 1..7 siblings at depth 1 (raw protection) or 2 (protection 
         "and the plugin returned a non-empty ranking")
 ASSUMPTIONS = [
     "the siblings' memory.current sum is below 2^63 (the code adds them in int64_t)",
-    "size_threshold <= 200 and SwapTotal*100 < 2^63 (no int64 overflow in the threshold computation)",
+    "sibling total * max(size_threshold, 100) / 100 < 2^63 - 2^11 and SwapTotal * 100 < 2^63 (the thresholds are computed in "
+    "double / int64_t and converted to int64_t)",
     "(SwapTotal / MemTotal) * memory protection < 2^61 (biased swap kill converts that product to int64_t)",
     "control files are well formed (missing / malformed files are C10's subject)",
     "eligibility thresholds are compared at whole-byte granularity; decisions that depend on IEEE rounding or on the "
@@ -66,7 +67,7 @@ def prot_fields(rng, cur):
         if r < 0.69:
             return str(cur)
         if r < 0.73:
-            return str(cur + rng.randint(1, 1 << 20))
+            return str(min(cur + rng.randint(1, 1 << 20), (1 << 63) - 1))
         if r < 0.87:
             return str(cur // rng.choice([2, 3, 4, 10]))
         return str(rng.randint(0, max(1, cur)))
@@ -216,8 +217,9 @@ def gen_growth(rng):
                 finals[i] = hist[-1]
         mn, lo = prot_fields(rng, hist[-1])
         s["ticks"] = [{"cur": str(c), "min": mn, "low": lo} for c in hist]
-    # keep the total below 2^63 after the exact-ratio adjustment
-    if sum(int(s["ticks"][-1]["cur"]) for s in sc["sibs"]) >= (1 << 63):
+    # keep the total, and the threshold computed from it, below 2^63 (ASSUMPTIONS)
+    total = sum(int(s["ticks"][-1]["cur"]) for s in sc["sibs"])
+    if total * max(thr, 100) // 100 >= (1 << 63) - (1 << 11):
         return gen_growth(rng)
     return finish_mem(rng, sc)
 
